@@ -1129,6 +1129,14 @@ def _clones(ctx, R):
 RULES.append(("C03.CLONE", "snapshots and copies are complete: Clone of states, commands, areas and numbers copies every field (shared with C01.CLONE)", _clones))
 
 
+def _unicode(ctx, R):
+    from . import p_c13
+    return p_c13.rule_unicode(ctx, R)
+
+
+RULES.append(("C03.UNICODE", "the interpreter's output conversion is floor -> low limb -> checked scalar value, the conversion the emitted runtime's push performs (C03.STACK decides the emitted side; shared with C13.UNICODE)", _unicode))
+
+
 # rules of other properties re-run under this property's name; resolved by rules/main.py once every module can be
 # imported (the owners import this module themselves)
 DEFERRED_BUNDLES = [
